@@ -6,8 +6,7 @@ From Coq Require Import List Bool Lia.
 Import ListNotations.
 
 Section Net.
-  Variables (node port frame dstate K B : Type).
-  Definition gstate := node -> dstate.
+  Variables (node port frame gstate K B : Type).                    (* gstate: the state of all devices *)
   Variable wire   : node -> port -> option (node * port).          (* cabling; None = nothing plugged in *)
   Variable handle : gstate -> node -> port -> frame -> gstate * list (port * frame) * bool.
   Variable key    : frame -> K.                                     (* the ACL-relevant tuple, invariant en route *)
@@ -81,6 +80,23 @@ Section Net.
       ~ open_path (bstate s) (key f) n p nB pB -> ~ In (nB, pB) (snd (prop fuel s n p f)).
   Proof. intros fuel s n p f nB pB Hno Hin. destruct (prop fuel s n p f) as [s' del] eqn:E.
          destruct (delivered_implies_open_path _ _ _ _ _ _ _ E) as [_ H]. auto. Qed.
+
+  (* a separator: a set of nodes that open hops never leave contains every delivery point of a frame injected inside it *)
+  Theorem separator : forall b k (S : node -> Prop),
+      (forall x p q y p', S x -> wire x q = Some (y, p') -> open_hop b x p q k -> S y) ->
+      forall n p n' p', open_path b k n p n' p' -> S n -> S n'.
+  Proof.
+    intros b k S Hc n p n' p' H. induction H as [n p Ha | n p q n1 p1 n' p' Hop Hw Hpath IH]; intros HS; auto.
+    apply IH. eapply Hc; eauto.
+  Qed.
+
+  Corollary cut_no_delivery : forall fuel s n p f (S : node -> Prop) nB pB,
+      (forall x p q y p', S x -> wire x q = Some (y, p') -> open_hop (bstate s) x p q (key f) -> S y) ->
+      S n -> ~ S nB -> ~ In (nB, pB) (snd (prop fuel s n p f)).
+  Proof.
+    intros fuel s n p f S nB pB Hc HS HnB. apply blocked_no_delivery. intros Hp. apply HnB.
+    eapply separator; eauto.
+  Qed.
 
   (* ---- termination: every forwarding hop lowers the TTL, so the nested propagation needs only TTL+1 levels -------- *)
   Variable ttl : frame -> nat.
